@@ -300,7 +300,7 @@ func init() {
 		return res + " saved=" + r.savedTok()
 	}
 	register(&Prop{ID: "C10", Gen: genC10, Oracle: oracleC10,
-		Rule: "readhashes: every tree size N <= 40 (thorough 120), tile height h in {1,2,3} (thorough 1..5, plus sampled N < 1500 with h <= 8), every single stored-hash index honest, then sampled (index set, fault) pairs where the fault hits a tile that the honest read requests: flip one bit of one hash, swap / duplicate two hashes, truncate, extend, replace by the true tile of another coordinate, tile missing; one or two faults; index sets of size 0-4 including out-of-range indexes, N = 0, h = 0; tileforindex / newtiles / hashfromtile / readtiledata / tilepath / parsetilepath with valid, mutated, boundary (int64 overflow in N, W = 2^H, leading zeros, signs, data tiles) and random inputs; non-trivial = at least one fault on a tile that is actually read, or a well-formed input / one mutation from one; distinct by op line"})
+		Rule: "readhashes: every tree size N <= 40 (thorough 120), tile height h in {1,2,3} (thorough 1..5, plus sampled N < 1500 with h <= 8), every single stored-hash index honest, then sampled (index set, fault) pairs where the fault hits a tile that the honest read requests: flip one bit of one hash, swap / duplicate two hashes, truncate, extend, replace by the true tile of another coordinate, tile missing; one or two faults; index sets of size 0-4 including out-of-range indexes, N = 0, h = 0; readseq: histories of 2-4 ReadHashes calls through ONE TileHashReader value with per-call faults (honest then a corrupted re-fetch of a tile fetched before, a corrupted read retried, the index lists of TreeHash/ProveTree/ProveRecord, random); tileforindex / newtiles / hashfromtile / readtiledata / tilepath / parsetilepath with valid, mutated, boundary (int64 overflow in N, W = 2^H, leading zeros, signs, data tiles) and random inputs; non-trivial = at least one fault on a tile that is actually read, or a well-formed input / one mutation from one; distinct by op line"})
 }
 
 // c10Honest returns the tiles an honest read of idx requests.
@@ -449,6 +449,10 @@ func genC10(g *Gen, n int) {
 			budget--
 		}
 	}
+	// part 1b: call histories on one reader value (util_c10seq.go)
+	seqN := budget / 8
+	c10GenSeq(g, seqN, maxN, hs)
+	budget -= seqN
 	// part 2: faults on tiles that are read
 	other := budget / 5
 	for budget > other {
@@ -674,6 +678,13 @@ func oracleC10(g *Gen, n int) {
 			exhaustive(N, h, 1+N%3, N <= 24)
 		}
 	}
+	// (e) call histories on ONE reader value against a server whose answers change between the calls: exhaustive on a
+	// small scope here, random ones (larger trees, index sets, the index lists of TreeHash/ProveTree/ProveRecord) in (b)
+	seqMaxN := 20
+	if thorough {
+		seqMaxN = 48
+	}
+	cases += c10OracleSeqSmall(g, seqMaxN, hs, n/4)
 	// (b) random index sets, one or two faults, larger trees
 	for cases < n {
 		N := g.Intn(maxN*3 + 1)
@@ -699,6 +710,10 @@ func oracleC10(g *Gen, n int) {
 			g.Case("set-" + fs[0].Kind)
 			cases++
 			c10CheckRead(g, l, N, h, idx, fs, seed)
+		}
+		for j := 0; j < 2; j++ {
+			cases++
+			c10OracleSeqRandom(g, l, N, h, seed)
 		}
 		// (c) NewTiles sufficiency over a growth sequence ending at N
 		if g.Chance(40) {
